@@ -32,7 +32,7 @@ Inductive gexp :=
 | GAnd (a b : gexp)
 | GOr (a b : gexp)
 | GNot (a : gexp)
-| GUnknown (why : string).
+| GUnknown.               (* not recognised: the reason is listed in Gen_ostype.gen_problems *)
 
 Fixpoint geval (g : gexp) (feat foreign : bool) : option bool :=
   match g with
@@ -45,7 +45,7 @@ Fixpoint geval (g : gexp) (feat foreign : bool) : option bool :=
   | GOr a b => match geval a feat foreign, geval b feat foreign with
                | Some x, Some y => Some (x || y) | _, _ => None end
   | GNot a => match geval a feat foreign with Some x => Some (negb x) | None => None end
-  | GUnknown _ => None
+  | GUnknown => None
   end.
 
 Record setos_shape := {
